@@ -61,23 +61,10 @@ def directed():
 
 
 def run(ctx, case):
+    df, info, sysobj = _rows.solve_and_judge(ctx, case, ACCEPT)
     spec = case["spec"]
-    tol = M.Tol(case["tol"], case["tol"])
-    st, sysobj = H.try_build(spec)
-    if st != "ok":
-        raise RuntimeError("generator produced a spec the public API rejects: %s" % H.exc_sig(sysobj))
-    st, df = H.solve(sysobj, vtol=case["tol"], itol=case["tol"], ta=case["ta"])
-    ctx.count("outcome", "returned" if st == "ok" else type(df).__name__)
-    if st != "ok":
+    if df is None:
         return
-    # first pass: does the table lie inside C01's quantifier (every series element kept its polarity)?
-    probe = H.Collect()
-    info, per, _ = M.check_table(probe, spec, df, tol, case["ta"])
-    if any(i.get("polarity_lost") for i in info.values()):
-        ctx.count("outcome", "polarity_lost(skipped, C03)")
-        return
-    em = H.Emit(ctx, accept=ACCEPT)
-    M.check_table(em, spec, df, tol, case["ta"])
     kinds = set()
     for c in spec["comps"]:
         kinds.add(c["kind"])
